@@ -120,12 +120,18 @@ impl<'a> P<'a> {
     fn number(&mut self, n: i64) {
         assert!(n >= 0);
         let s = if self.lay.mixed_radix {
-            match self.rng.gen_range(0..6) {
-                0 => format!("0x{:x}", n),
-                1 => format!("0X{:X}", n),
-                2 => format!("0b{:b}", n),
-                3 => format!("0B{:b}", n),
-                4 => format!("0{:o}", n),
+            // zero padding (also past 16 hex / 64 binary / 22 octal digits) and mixed-case hex digits do not change the value
+            let pad = if self.rng.gen_bool(0.25) { "0".repeat(self.rng.gen_range(1..24)) } else { String::new() };
+            match self.rng.gen_range(0..7) {
+                0 => format!("0x{pad}{:x}", n),
+                1 => format!("0X{pad}{:X}", n),
+                2 => format!("0b{pad}{:b}", n),
+                3 => format!("0B{pad}{:b}", n),
+                4 => format!("0{pad}{:o}", n),
+                5 => {
+                    let h: String = format!("{:x}", n).chars().map(|c| if self.rng.gen_bool(0.5) { c.to_ascii_uppercase() } else { c }).collect();
+                    format!("0x{pad}{h}")
+                }
                 _ => format!("{}", n),
             }
         } else {
